@@ -54,6 +54,28 @@ def tomography_case(chk, case, there, bad):
         est = api.estimate_standard_qst_from_qiskit("qubit", 1, pv, flat_s.copy(), shots, [2, 2, 2], "linear", "all")
         if not close(est, rho, 1e-8):
             bad("tomography:qst:linear:" + shots_form, "the linear estimate from the exact statistics of G(x0) is not its density matrix")
+    # data generated through the exchange format follow the exact statistics of the specification: right number of
+    # schedules and shots, counts are integers, outcomes of probability zero never occur, the same seed gives the same data,
+    # and with many shots the frequencies are close to the exact distribution
+    if chk.tier == "thorough" or case["name"] in ("h", "ad", "s"):
+        for what, call, exact in (
+                ("gate", lambda N, sd: api.generate_empi_dists_from_qiskit_gate("qubit", 1, there.copy(), st, pv, N, sd, "all"), flat),
+                ("state", lambda N, sd: api.generate_empi_dists_from_qiskit_state("qubit", 1, rho.copy(), pv, N, sd, "all"), flat_s)):
+            small, again, big = call(40, 7), call(40, 7), call(20000, 11)
+            k = len(exact) // 2
+            if len(small) != k or any(int(d[0]) != 40 for d in small):
+                bad("datagen:%s:layout" % what, "%d schedules with shots %s, expected %d schedules of 40 shots" % (len(small), [d[0] for d in small][:4], k))
+                continue
+            fs = np.concatenate([np.asarray(d[1], dtype=float) for d in small])
+            if np.max(np.abs(fs * 40 - np.round(fs * 40))) > 1e-9 or np.any(fs < 0) or any(abs(float(np.sum(d[1])) - 1) > 1e-12 for d in small):
+                bad("datagen:%s:counts" % what, "generated frequencies are not counts / 40 that sum to one")
+            if np.any(fs[exact < 1e-12] != 0):
+                bad("datagen:%s:support" % what, "an outcome of exact probability zero was generated")
+            if any(not np.array_equal(np.asarray(a[1]), np.asarray(b[1])) for a, b in zip(small, again)):
+                bad("datagen:%s:seed" % what, "the same seed gives other data")
+            fb = np.concatenate([np.asarray(d[1], dtype=float) for d in big])
+            if np.max(np.abs(fb - exact)) > 0.02:
+                bad("datagen:%s:law" % what, "frequencies of 20000 shots are %.3f away from the exact statistics" % float(np.max(np.abs(fb - exact))))
     # and the way in: exact statistics produced from the other package's matrices
     lab, fl = api.generate_empi_dists_from_quara([(1000, flat[2 * i:2 * i + 2].copy()) for i in range(n)])
     if list(lab) != [2] * n or not close(fl, flat, 1e-12):
